@@ -1124,6 +1124,17 @@ class Literal(Variable[T]):
                 name = type(original_data).__name__
         super().__init__(name, type_, _domain_source_=From(data))
 
+    def _evaluate__(self, sources: Optional[Dict[int, HashedValue]] = None, yield_when_false: bool = False) \
+            -> Iterable[Dict[int, HashedValue]]:
+        # A literal that stands where a condition is expected (a plain True / False among the conditions) is its truth value.
+        is_a_condition = self is self._conditions_root_ or isinstance(self._parent_, LogicalOperator)
+        for values in super()._evaluate__(sources, yield_when_false=yield_when_false):
+            if is_a_condition and self._id_ in values:
+                self._is_false_ = bool(values[self._id_].value) == bool(getattr(self, '_invert_', False))
+                if self._is_false_ and not yield_when_false:
+                    continue
+            yield values
+
     @property
     def _plot_color_(self) -> ColorLegend:
         if self._plot_color__:
